@@ -26,6 +26,8 @@ CONSTANTS
     NIp6,           \* IPv6 addresses
     NAk,            \* keys of the allow list
     V6Set,          \* subset of BOOLEAN: obfuscate_ipv6
+    NoFqdnSet,      \* subset of BOOLEAN: the cleaner is built without an explicit fqdn (as insights/collect.py does)
+    DnameSet,       \* subset of BOOLEAN: a display_name (inventory label) is configured
     DelSet,         \* delimiter classes explored, subset of AllDel
     MaxTok,         \* tokens per line
     MaxLines,       \* lines per spec
@@ -94,8 +96,11 @@ IdsOf(k) == CASE k = "ip"  -> 1..NIp
 TokSet  == UNION {{[k |-> k, id |-> i, l |-> l, r |-> r] : i \in IdsOf(k), l \in DelSet, r \in DelSet} : k \in Kinds}
 LineSet == UNION {[1..n -> TokSet] : n \in (IF AllowBlank THEN 0 ELSE 1)..MaxTok}
 SpSet   == [nored : NoRedSet, noobf : NoObfSets, width : WidthSet, allow : AllowSet]
+(* nofqdn / dname do not occur in any operator below: the system's own name *)
+(* is the name the system declares, however the cleaner gets to know it and *)
+(* whatever label the inventory shows.                                      *)
 Cfgs    == {c \in [obf : ObfSet, host : HostSet, mac : MacSet, v6 : V6Set, kws : KwSets, pats : PatSets,
-                   regex : RegexSet, sysdom : SysDomSet, fam : FamSet] :
+                   regex : RegexSet, sysdom : SysDomSet, fam : FamSet, nofqdn : NoFqdnSet, dname : DnameSet] :
                 /\ (c.pats = {} => ~c.regex \/ RegexSet = {TRUE})
                 /\ (c.host => c.obf)}      \* client/config.py: obfuscate_hostname requires obfuscate
 (* ChooseOrder: ANY fixed order in which a configured keyword cannot pre-empt *)
